@@ -109,6 +109,11 @@ pub fn parse<'a>(token: &'a tokenizer::Token) -> Option<Element<'a>> {
                 return None;
             }
 
+            // A tag whose body is blank (e.g. `< >`) has no name and is not an element.
+            if pairs.is_empty() {
+                return None;
+            }
+
             let (name, attrs) = (
                 pairs[0].0,
                 pairs[1..]
